@@ -7,11 +7,12 @@ namespace Babylon.Exec
 open Babylon.Core
 
 macro "s_close" : tactic => `(tactic| (
+  (try simp only [balExited] at *)
   (try simp only [exec_proj, upd_same, Q.claim_fold, Q.bump_fold] at *)
   first
     | done
     | grind [upd, Pc.role, Pc.carry, Pc.exec, Pc.pastB, claimPc, dispatchPc, PopCtx.onEmpty, PopCtx.role, afterLdRunS,
-        afterLdRunB, role_chk, popctx_role, noteMarker, balExited,
+        afterLdRunB, role_chk, popctx_role,
         Q.itemAt_setSt, Q.stAt_setSt, Q.itemAt_take, Q.stAt_take, Q.length_take, Q.length_setSt, Q.popIdx_setSt, Q.popIdx_take,
         Q.itemAt_claim, Q.stAt_claim, Q.popIdx_claim, Q.length_claim, Q.itemAt_bump, Q.stAt_bump, Q.popIdx_bump, Q.length_bump,
         Q.itemAt_some_lt, Q.stAt_some_lt]))
@@ -46,6 +47,18 @@ theorem Inv4.step_m1 (I : Inv1 c s) (J : Inv2 c s) (B : Inv2b s) (K : Inv3 c s) 
   have hj5 := afterJoinW_sJoinW c
   have hj6 := afterJoinW_sEnd c
   have hmem := mem_getElem? c.workers
+  have hx1 := ne_exit_markChain c
+  have hx2 := ne_exit_afterStore c
+  have hx3 := ne_exit_onEmpty
+  have hx4 := ne_exit_afterSubmit c
+  have hx5 := ne_exit_afterSize c
+  have hx6 := ne_exit_afterLdRunS
+  have hx7 := ne_exit_afterLdRunB
+  have hx8 := ne_exit_afterJoinW c
+  have hnm1 := noteMarker_some
+  have hnm2 := noteMarker_ne_none
+  have hkx : ∀ p k, s.pc t = .gPub p k → k ≠ .wStopping ∧ k ≠ .exited := by
+    intro p k hp; rw [hp] at hwf; exact ne_exit_cont c none k hwf
   have hne1 := dispatchPc_ne
   have hne2 := onEmpty_ne
   have hst0 : ∀ k, s.pc t = .gTake .stop k → (s.pc t).role = .stopper ∧ (s.pc t).pastB = true := by
@@ -105,6 +118,18 @@ theorem Inv4.step_m2 (I : Inv1 c s) (J : Inv2 c s) (B : Inv2b s) (K : Inv3 c s) 
   have hj5 := afterJoinW_sJoinW c
   have hj6 := afterJoinW_sEnd c
   have hmem := mem_getElem? c.workers
+  have hx1 := ne_exit_markChain c
+  have hx2 := ne_exit_afterStore c
+  have hx3 := ne_exit_onEmpty
+  have hx4 := ne_exit_afterSubmit c
+  have hx5 := ne_exit_afterSize c
+  have hx6 := ne_exit_afterLdRunS
+  have hx7 := ne_exit_afterLdRunB
+  have hx8 := ne_exit_afterJoinW c
+  have hnm1 := noteMarker_some
+  have hnm2 := noteMarker_ne_none
+  have hkx : ∀ p k, s.pc t = .gPub p k → k ≠ .wStopping ∧ k ≠ .exited := by
+    intro p k hp; rw [hp] at hwf; exact ne_exit_cont c none k hwf
   have hne1 := dispatchPc_ne
   have hne2 := onEmpty_ne
   have hst0 : ∀ k, s.pc t = .gTake .stop k → (s.pc t).role = .stopper ∧ (s.pc t).pastB = true := by
@@ -163,6 +188,18 @@ theorem Inv4.step_m4 (I : Inv1 c s) (J : Inv2 c s) (B : Inv2b s) (K : Inv3 c s) 
   have hj5 := afterJoinW_sJoinW c
   have hj6 := afterJoinW_sEnd c
   have hmem := mem_getElem? c.workers
+  have hx1 := ne_exit_markChain c
+  have hx2 := ne_exit_afterStore c
+  have hx3 := ne_exit_onEmpty
+  have hx4 := ne_exit_afterSubmit c
+  have hx5 := ne_exit_afterSize c
+  have hx6 := ne_exit_afterLdRunS
+  have hx7 := ne_exit_afterLdRunB
+  have hx8 := ne_exit_afterJoinW c
+  have hnm1 := noteMarker_some
+  have hnm2 := noteMarker_ne_none
+  have hkx : ∀ p k, s.pc t = .gPub p k → k ≠ .wStopping ∧ k ≠ .exited := by
+    intro p k hp; rw [hp] at hwf; exact ne_exit_cont c none k hwf
   have hne1 := dispatchPc_ne
   have hne2 := onEmpty_ne
   have hst0 : ∀ k, s.pc t = .gTake .stop k → (s.pc t).role = .stopper ∧ (s.pc t).pastB = true := by
